@@ -372,11 +372,14 @@ Definition cases : list (cli_config * cli_outcome) := [
 
 	// 3. broken target packages: must never crash the run
 	broken := map[string]map[string]string{
-		"syntax-error":      {"a.go": "package b\n\nfunc F( {\n"},
-		"type-error":        {"a.go": "package b\n\nfunc F(IN int) string { return IN + \"x\" }\n\nfunc G(xs []int) bool { return len(xs) >= 0 }\n"},
-		"unresolved-import": {"a.go": "package b\n\nimport (\n\tnope \"example.com/does/not/exist\"\n\t\"fmt\"\n)\n\nfunc F(IN int) { fmt.Println(nope.X, IN) }\n"},
-		"mixed-packages":    {"a.go": "package b\n\nfunc F(IN int) int { return IN }\n", "c.go": "package c\n\nfunc G(IN int) int { return IN }\n"},
-		"undefined-names":   {"a.go": "package b\n\nfunc F(IN int) int { x := undefinedFn(IN); return x.y[0] }\n\nfunc H(s string) bool { return len(s) == 0 }\n"},
+		"syntax-error":                    {"a.go": "package b\n\nfunc F( {\n"},
+		"type-error":                      {"a.go": "package b\n\nfunc F(IN int) string { return IN + \"x\" }\n\nfunc G(xs []int) bool { return len(xs) >= 0 }\n"},
+		"unresolved-import":               {"a.go": "package b\n\nimport (\n\tnope \"example.com/does/not/exist\"\n\t\"fmt\"\n)\n\nfunc F(IN int) { fmt.Println(nope.X, IN) }\n"},
+		"mixed-packages":                  {"a.go": "package b\n\nfunc F(IN int) int { return IN }\n", "c.go": "package c\n\nfunc G(IN int) int { return IN }\n"},
+		"invalid-import-path":             {"a.go": "package b\n\nimport \"\"\n\nfunc F(IN int) int { return IN }\n"},
+		"self-import":                     {"a.go": "package b\n\nimport b \"fm/broken/self-import\"\n\nfunc F(IN int) int { return IN + b.X }\n"},
+		"blank-and-dot-import-of-missing": {"a.go": "package b\n\nimport (\n\t_ \"example.com/none/a\"\n\t. \"example.com/none/b\"\n)\n\nfunc F(IN int) int { return IN }\n"},
+		"undefined-names":                 {"a.go": "package b\n\nfunc F(IN int) int { x := undefinedFn(IN); return x.y[0] }\n\nfunc H(s string) bool { return len(s) == 0 }\n"},
 	}
 	for name, files := range broken {
 		dir := filepath.Join(base, "broken", name)
